@@ -457,7 +457,38 @@ def rule_single_pass_(ctx: Ctx, rep: Report) -> None:
     rule_single_pass(ctx, rep, "C16.single_pass", ("btclib.silent_payments", "btclib.psbt.silent_payments", "btclib.ecc.musig2", "btclib.psbt.musig2"), 1)
 
 
+def rule_paired_keys_read_by_script(ctx: Ctx, rep: Report) -> None:
+    """C16.paired_keys_read_by_script: BIP352 reads a taproot input's key x-only -- the
+    even-y point, the private key negated to match -- and every other key as
+    it is, and the library's functions are told which is which by the
+    script each key is *paired with* (`Sequence[tuple[PrvKey|PubKey, Octets]]`).
+    A function that takes such pairs either hands them on whole, or asks
+    `is_p2tr` of the script before it uses a key: sender, scanner, bindings
+    arm and Python arm then fold the same keys. One that takes the keys out
+    of the pairs and sums them as given finds nothing for half of all
+    taproot keys."""
+    rule = "C16.paired_keys_read_by_script"
+    n = 0
+    for q, fi in sorted(ctx.prog.functions.items()):
+        if not (q.startswith("btclib.silent_payments.") or q.startswith("btclib.psbt.silent_payments.")):
+            continue
+        a = fi.node.args
+        paired = [p_.arg for p_ in a.posonlyargs + a.args + a.kwonlyargs if p_.annotation is not None
+                  and any(t in norm(p_.annotation).replace(" ", "") for t in ("tuple[PubKey,Octets]", "tuple[PrvKey,Octets]"))]
+        for p_ in paired:
+            uses = [x for x in own_nodes(fi.node) if isinstance(x, ast.Name) and x.id == p_ and isinstance(x.ctx, ast.Load)]
+            opened = [x for x in uses if not (isinstance(parent(x), ast.Call) and x in parent(x).args and ctx.resolve_call(fi, parent(x)) in ctx.prog.functions)]
+            asks = any(isinstance(c, ast.Call) and call_name(c) == "is_p2tr" for c in own_nodes(fi.node))
+            n += 1
+            ok = not opened or asks
+            rep.ob(rule, f"{q}:{p_}", ok, fi.where(opened[0] if opened else fi.node), "handed on whole" if not opened else "each key read by `is_p2tr` of its script" if asks else
+                   f"`{p_}` is taken apart here and no `is_p2tr` is asked of the scripts: a taproot key is used with the y it came with, where the other side reads it x-only")
+    rep.floor(rule, 3)
+
+
 RULES = [
+    ("C16.paired_keys_read_by_script", rule_paired_keys_read_by_script),
+
     ("C16.taproot_input_key_is_the_output_key", rule_taproot_input_key_is_the_output_key),
     ("C16.adaptor_inverse", rule_adaptor_inverse),
     ("C16.single_pass", rule_single_pass_),
